@@ -40,6 +40,9 @@ def sampleScale [Sc P] (stops : List (Stop P C)) (pos : P) (mix : C → C → P 
     let right := stops.find? (fun c => decide (pos ≤ c.2))
     match left, right with
     | some l, some r =>
+      -- exactly on a stop both neighbours are that stop: its colour as it is
+      if feq l.2 r.2 then some l.1
+      else
       let diffStops := r.2 - l.2
       let diffPos := pos - l.2
       some (mix l.1 r.1 (fraction (diffPos / diffStops)))
